@@ -45,6 +45,18 @@ def ePSt (before : Nat) : Res PSt → Json
   | .ok st => ok (Json.arr #[Json.arr ((st.tr.steps.drop before).map eStep).toArray, eNode st.tr.doc,
       jn st.fits.length])
 
+mutual
+/-- adjacent text of equal marks joined at every level (what the `Fragment.from_array` calls of a mark step's
+    `map_fragment` do inside an inline node with content whose texts have lost a mark): output normalisation of
+    `retypedChildren`, whose specification speaks about token sequences -/
+def joinDeepNode : Node → Node
+  | .elem t a m kids => .elem t a m (fromArray (joinDeepKids kids))
+  | n => n
+def joinDeepKids : List Node → List Node
+  | [] => []
+  | n :: ns => joinDeepNode n :: joinDeepKids ns
+end
+
 def handleMarkPlan (st : St) (op : String) (j : Json) : Option (D (St × Json)) :=
   match op with
   | "planNodeOp" => some do
@@ -85,7 +97,7 @@ def handleMarkPlan (st : St) (op : String) (j : Json) : Option (D (St × Json)) 
     let S ← getSchema st j
     let n ← node (← field j "node")
     let ty ← nat (← field j "type")
-    return (st, ok (Json.arr ((fromArray (retypedChildren S ty n.kids)).map eNode).toArray))
+    return (st, ok (Json.arr ((fromArray (joinDeepKids (retypedChildren S ty n.kids))).map eNode).toArray))
   | "planAddMark" => some do
     let S ← getSchema st j
     let d ← node (← field j "doc")
